@@ -83,6 +83,43 @@ def run_dynamic(prop, seed, tier, replay):
                 "A6 with / direct eval / arguments aliasing are outside the generated fragment"]}
 
 
+MAP_PROPS = {"C09", "C10", "C13"}
+
+
+def run_map(prop, seed, tier, replay):
+    import map_pipeline as mp
+    if replay:
+        rp = json.load(open(replay))
+        c = rp["case"]
+        kind = c.get("kind", "none")
+        res = mp.run(seed, tier, extra_cases=[dict(c, name="replay", kind=kind, usable=None, otoks=[], ref=None)])
+    else:
+        res = mp.run(seed, tier)
+    vs = res["verdicts"].get(prop, [])
+    samples = []
+    for rid, v, d in vs:
+        if v == "ok" and len(samples) < 3:
+            c = res["cases"][rid]
+            samples.append({"input": c["code"][:300], "file": c["file"], "reference": c["kind"],
+                            "settings": {k: c["config"].get(k) for k in ("chainSourceMap", "comments")}, "detail": d[:120]})
+    st = res["stats"]
+    ms = st.get("models", {})
+    cov = {"states": st["tlc_distinct"] + sum(m["distinct"] for m in ms.values()),
+           "transitions": st["tlc_states"] + sum(m["states"] for m in ms.values()),
+           "traces_validated_against_impl": st["records"], "evaluations": st["cases"], "samples": samples,
+           "design_models": ms,
+           "rule": "design models: MC_Chain (chaining algorithm = exact composition on ALL small map pairs) and MC_Reader (full "
+                   "product of reference kinds x parent answers x settings, every tuple replayed); observations: programs with "
+                   "generator-known layouts (multi-line, CRLF, non-ASCII, comments, look-alike literals) x original maps of "
+                   "every reference kind through a fault-injecting FileReader; the trailer is decoded by the harness's own "
+                   "base64/VLQ decoder and judged by TraceMap.tla; non-trivial = a modified file (C09: with paired identifiers; "
+                   "C10: chained through a usable original map)", "exhaustive": False}
+    level = "fault_enumeration" if prop == "C13" else "model_checking"
+    return {"verdicts": vs, "cases": res["cases"], "level": level, "coverage": cov,
+            "assumptions": COMMON_ASSUMPTIONS + ["A7 columns are compared in UTF-16 units; generators stay within the BMP",
+                                                 "the harness's own base64/VLQ decoder and encoder (harness/py) are trusted"]}
+
+
 def merge(a, b, pa, pb):
     """both halves of a property must hold: verdict lists are concatenated (record ids prefixed)"""
     cases = {pa + k: v for k, v in a["cases"].items()}
@@ -100,10 +137,16 @@ def merge(a, b, pa, pb):
 def run_property(prop, seed, tier, replay=None):
     if replay:
         rp = json.load(open(replay))
-        half = "dyn" if str(rp.get("rid", "")).startswith("dyn:") else "static"
+        half = "dyn" if str(rp.get("rid", "")).startswith("dyn:") else ("map" if str(rp.get("rid", "")).startswith(("map:", "m")) and prop in MAP_PROPS else "static")
+        if half == "map":
+            return run_map(prop, seed, tier, replay)
         if prop in DYN_PROPS and (half == "dyn" or prop not in STATIC_PROPS):
             return run_dynamic(prop, seed, tier, replay)
         return run_static(prop, seed, tier, replay)
+    if prop == "C13":
+        return merge(run_static(prop, seed, tier, None), run_map(prop, seed, tier, None), "static:", "map:")
+    if prop in MAP_PROPS:
+        return run_map(prop, seed, tier, None)
     if prop in STATIC_PROPS and prop in DYN_PROPS:
         return merge(run_static(prop, seed, tier, None), run_dynamic(prop, seed, tier, None), "static:", "dyn:")
     if prop in DYN_PROPS:
